@@ -131,7 +131,7 @@ PROPS.update({
         "assumptions": ["source and target are well-formed pointer-free names under the parser's character policy (is_cname), both non-root: the property's quantifier",
                         "on an Err exit taken while an iterator is still alive, 'the packet object is unchanged' is not stated (Verus does not resolve the prophecy of the live iterator at a `?` exit); it is stated for Ok exits",
                         "units with iterator client loops are verified with --no-lifetime"],
-        "level_text": "replace_raw is proved EQUAL to replace_spec (label-aligned, case-insensitive exact/suffix match; result = kept labels ++ target; TooLong exactly when the result would exceed 255) for all well-formed names; copy_with_replaced_name fails exactly when replace_spec is TooLong and otherwise appends the compressed form (whole labels + at most one pointer) of the rewritten -- or, without a match, the original -- expanded name, which is again a clean name; F8 for the renamer (see C06): the invariant dict_ok holds from SuffixDict::new() to the end of Renamer::rename_with_raw_names, across every section walk and every RDLENGTH fix-up (window lemmas), so every name the renamer writes -- question, owner names, NS/CNAME/PTR/MX targets, both SOA names -- is valid under the parser's name rule and decodes, in the output, to renamed_name(expanded input name) == the rewritten name or, without a match, the original, up to ASCII case; every name-bearing record type writes RDLENGTH == bytes appended after the 10-byte header (one obligation per arm: NS/CNAME/PTR, MX, SOA); the OPT record is copied by the generic arm in place; the section walks only read the packet object; header copied. F9 for the renamer, 'renaming returns an accepted packet': r matches Ok(v) && wf_packet(input) ==> wf_packet(v) -- every record written is proved to be one the parser accepts in its section (rename_response_section: out_rdata per arm -- one valid name ending the record for NS/CNAME/PTR, preference + name for MX, two names + twenty bytes for SOA, verbatim data for the rest incl. the option list of OPT and the pointer-free name of DNAME; the OPT owner is the root name, which no non-root source matches, so it is written as its single byte), sections assembled record by record (rrs of the output per section, stability under growth), question = valid name + the input's four fixed bytes (q_written), policy clauses from the copied header (lemma_accept). F10 for the renamer, 'every name that equals the source (or ends with it on a label boundary) has that part replaced by the target, while every other name, the header, the counts, record order, types, classes, TTLs, opaque data and the OPT record are unchanged up to name case': r matches Ok(v) && wf_packet(input) ==> msg_ren(v, input, target, source, suffix) (spec/racc.rs) -- header byte for byte; question name == renamed_name(expanded input name) up to case, type/class byte for byte; then section by section (at the sections' starts as the reader computes them in both packets) and record by record in order (recs_ren): owner name, the target of NS/CNAME/PTR, the exchange of MX and both SOA names each equal, up to case, to renamed_name of the input's expanded name -- renamed_name being replace_spec's rewritten name on a match and the name itself otherwise -- and type/class/TTL, MX preference, the twenty SOA bytes, and for every other type (OPT and its options included) RDLENGTH and data byte for byte. 'renaming a name to itself leaves the message unchanged': lemma_rename_identity -- with target == source renamed_name(n) equals n up to ASCII case for every name of at most 255 bytes and the TooLong case cannot arise, so every name clause of msg_ren reads 'equal to the input's expanded name up to case' (name-level lemma; the message-level restatement is msg_ren itself). F11, the packet-level wrapper ParsedPacket::rename_with_raw_names (observe_at): on success the packet object satisfies its invariant again for the renamed bytes (final(self).wf()), those bytes are accepted and carry the renamed message (msg_ren), the object is marked possibly-compressed with the question cache dropped, and the wrapper's four assert_eq! on the EDNS summary are discharged as proof obligations (lemma_ren_opt_at / lemma_ren_edns: corresponding runs have their OPT record at the same index with the same fixed fields and option list), and the re-parse cannot fail. NOT proved by contracts: that a failing rename leaves the packet object untouched (the renamer's contract states *final == *old only for success)",
+        "level_text": "replace_raw is proved EQUAL to replace_spec (label-aligned, case-insensitive exact/suffix match; result = kept labels ++ target; TooLong exactly when the result would exceed 255) for all well-formed names; copy_with_replaced_name fails exactly when replace_spec is TooLong and otherwise appends the compressed form (whole labels + at most one pointer) of the rewritten -- or, without a match, the original -- expanded name, which is again a clean name; F8 for the renamer (see C06): the invariant dict_ok holds from SuffixDict::new() to the end of Renamer::rename_with_raw_names, across every section walk and every RDLENGTH fix-up (window lemmas), so every name the renamer writes -- question, owner names, NS/CNAME/PTR/MX targets, both SOA names -- is valid under the parser's name rule and decodes, in the output, to renamed_name(expanded input name) == the rewritten name or, without a match, the original, up to ASCII case; every name-bearing record type writes RDLENGTH == bytes appended after the 10-byte header (one obligation per arm: NS/CNAME/PTR, MX, SOA); the OPT record is copied by the generic arm in place; the section walks only read the packet object; header copied. F9 for the renamer, 'renaming returns an accepted packet': r matches Ok(v) && wf_packet(input) ==> wf_packet(v) -- every record written is proved to be one the parser accepts in its section (rename_response_section: out_rdata per arm -- one valid name ending the record for NS/CNAME/PTR, preference + name for MX, two names + twenty bytes for SOA, verbatim data for the rest incl. the option list of OPT and the pointer-free name of DNAME; the OPT owner is the root name, which no non-root source matches, so it is written as its single byte), sections assembled record by record (rrs of the output per section, stability under growth), question = valid name + the input's four fixed bytes (q_written), policy clauses from the copied header (lemma_accept). F10 for the renamer, 'every name that equals the source (or ends with it on a label boundary) has that part replaced by the target, while every other name, the header, the counts, record order, types, classes, TTLs, opaque data and the OPT record are unchanged up to name case': r matches Ok(v) && wf_packet(input) ==> msg_ren(v, input, target, source, suffix) (spec/racc.rs) -- header byte for byte; question name == renamed_name(expanded input name) up to case, type/class byte for byte; then section by section (at the sections' starts as the reader computes them in both packets) and record by record in order (recs_ren): owner name, the target of NS/CNAME/PTR, the exchange of MX and both SOA names each equal, up to case, to renamed_name of the input's expanded name -- renamed_name being replace_spec's rewritten name on a match and the name itself otherwise -- and type/class/TTL, MX preference, the twenty SOA bytes, and for every other type (OPT and its options included) RDLENGTH and data byte for byte. 'renaming a name to itself leaves the message unchanged': lemma_rename_identity -- with target == source renamed_name(n) equals n up to ASCII case for every name of at most 255 bytes and the TooLong case cannot arise, so every name clause of msg_ren reads 'equal to the input's expanded name up to case' (name-level lemma; the message-level restatement is msg_ren itself). F11, the packet-level wrapper ParsedPacket::rename_with_raw_names (observe_at): on success the packet object satisfies its invariant again for the renamed bytes (final(self).wf()), those bytes are accepted and carry the renamed message (msg_ren), the object is marked possibly-compressed with the question cache dropped, and the wrapper's four assert_eq! on the EDNS summary are discharged as proof obligations (lemma_ren_opt_at / lemma_ren_edns: corresponding runs have their OPT record at the same index with the same fixed fields and option list), and the re-parse cannot fail. F12 'when a rewritten name would exceed 255 bytes the call fails instead of producing a packet' and failure atomicity (C10): copy_with_replaced_name fails exactly on TooLong; the renamer and all its section walks leave the packet object untouched whether they succeed or fail (*final == *old unconditionally: the walks only read), and the wrapper returns Err only from the renamer (the re-parse of an accepted output cannot fail), so r.is_err() ==> *final(self) == *old(self)",
         "technique": "Verus functional contract of replace_raw against a spec function + per-record bookkeeping obligations on the extracted renamer; remaining clauses by differential replay (stated)",
     },
     "C13": {
@@ -180,7 +180,7 @@ _U9_ASSUME = ["DNSIterable::rdata_slice_mut (a two-line `&mut packet[name_end..]
 PROPS.update({
     "C08": {
         "title": "A mutated packet object always matches a fresh parse of its own bytes",
-        "units": ["U9"], "cone": _U9_MUT,
+        "units": ["U9", "U8"], "cone": {"U9": _U9_MUT, "U8": [r"ParsedPacket::rename_with_raw_names$", r"Renamer::rename_with_raw_names$", r"spec/racc\\.rs"]},
         "witness": ("c08", 6000),
         "level": "proof", "design_ref": "DESIGN.md section 5 C08",
         "assumptions": _U9_ASSUME,
@@ -198,7 +198,7 @@ PROPS.update({
     },
     "C10": {
         "title": "A failed operation changes nothing; the size limit cannot be bypassed",
-        "units": ["U9"], "cone": _U9_MUT,
+        "units": ["U9", "U8"], "cone": {"U9": _U9_MUT, "U8": [r"ParsedPacket::rename_with_raw_names$", r"Renamer::rename_with_raw_names$", r"spec/racc\\.rs"]},
         "witness": ("c10", 6000),
         "level": "proof", "design_ref": "DESIGN.md section 5 C10",
         "assumptions": _U9_ASSUME + ["'malformed record text' (RR::from_string) and 'a rename that overflows a name' are covered by C13 / C07; insert_rr_from_string is the composition and is not under contract itself"],
